@@ -95,6 +95,45 @@ def t_ref_headers():
     return bad == 0 and n > 100, "dumps=%d mismatching=%d %s" % (n, bad, first_bad)
 
 
+def t_list_renderer():
+    """the Python list renderer reproduces every listing recorded from the original Unix LHA tool"""
+    import time
+    from vlib import listrender
+    exe = build.ensure_explorer("ref_hdrjson", "plain", lib=False)
+    out_root = os.path.join(REPO, "test", "output")
+    old_tz = os.environ.get("TZ")
+    os.environ["TZ"] = "Europe/London"
+    time.tzset()
+    n = bad = 0
+    first_bad = []
+    try:
+        r = listrender.Renderer(1335830400, localtime=time.localtime)
+        mtime = int(time.mktime((2000, 1, 1, 0, 0, 0, 0, 0, -1)))
+        for path in corpus_files():
+            rel = os.path.relpath(path, CORPUS)
+            if not os.path.exists(os.path.join(out_root, rel + "-l.txt")) or not os.path.exists(os.path.join(out_root, rel + "-hdr.txt")):
+                continue      # (one recorded listing, lha_unix114i/h0_subdir, is of an archive whose level-0 directory entries carry no path at all)
+            buf = open(path, "rb").read()
+            off = find_first_header(buf) or 0
+            js = subprocess.run([exe, path, str(off), "london"], stdout=subprocess.PIPE).stdout.decode()
+            members = listrender.parse_members(js)
+            for mode in ("l", "lv", "v", "vv"):
+                want = open(os.path.join(out_root, rel + "-%s.txt" % mode), "rb").read()
+                got = r.render(mode, members, mtime)
+                n += 1
+                if got != want:
+                    bad += 1
+                    if len(first_bad) < 4:
+                        first_bad.append(rel + "-" + mode)
+    finally:
+        if old_tz is None:
+            os.environ.pop("TZ", None)
+        else:
+            os.environ["TZ"] = old_tz
+        time.tzset()
+    return bad == 0 and n > 400, "listings=%d mismatching=%d %s" % (n, bad, first_bad)
+
+
 def main():
     rc = 0
     for name, fn in TESTS:
@@ -110,4 +149,4 @@ def main():
     return rc
 
 
-TESTS = [("ref-decoders-vs-corpus", t_ref_decoders), ("ref-headers-vs-dumps", t_ref_headers)]
+TESTS = [("ref-decoders-vs-corpus", t_ref_decoders), ("ref-headers-vs-dumps", t_ref_headers), ("list-renderer-vs-unix-lha", t_list_renderer)]
